@@ -46,7 +46,8 @@ def val_text(v):
     return v
 
 
-def render_c(items, seed=0, fortran=False, uid="x", plain=False, drop=(), xstr=False, dotted=False, fchain=False):
+def render_c(items, seed=0, fortran=False, uid="x", plain=False, drop=(), xstr=False, dotted=False, fchain=False,
+             spill=False):
     """
     Returns (text, lines_of_item) where lines_of_item[i] (0-based item index) is the list of
     physical line numbers (1-based) that the item contributes as counted lines.
@@ -150,6 +151,10 @@ def render_c(items, seed=0, fortran=False, uid="x", plain=False, drop=(), xstr=F
         if (not bad) and (not fortran) and (not plain) and " " in txt and rnd.random() < 0.15:
             a, b = txt.split(" ", 1)
             ls = emit(hashpfx() + a + " \\", "   " + b + trail())
+        elif spill and (not bad) and (not fortran) and rnd.random() < 0.4:
+            # a trailing block comment that ends on the NEXT physical line: that line belongs to the directive's extent
+            # but holds nothing, so it is not counted (and is neither used nor unused in the coverage export)
+            ls = emit(hashpfx() + txt + " /* spilled", "   comment */")[:1]
         else:
             ls = emit(hashpfx() + txt + ("" if bad else trail()))
         lines_of.append(ls)
